@@ -29,6 +29,7 @@ static string DecodePath(const string& s) {
   for (size_t i = 0; i < s.size(); ++i) {
     if (s[i] == '%' && i + 2 < s.size() + 0 && s.compare(i, 3, "%20") == 0) { o += ' '; i += 2; }
     else if (s[i] == '%' && s.compare(i, 3, "%25") == 0) { o += '%'; i += 2; }
+    else if (s[i] == '%' && s.compare(i, 3, "%09") == 0) { o += '\t'; i += 2; }
     else o += s[i];
   }
   return o;
